@@ -65,6 +65,7 @@ Inductive agg :=
   | CounterEq (nm : Z) (k n : Z)             (* counter.nm(k) == n: the function's value is the counter AFTER this click *)
   | CountIf (v nm : Z) (c : bexp)            (* @v = count.nm(c): dictionary nm counts the lines per answer of c (keys True / False), on every
                                                 line the component is evaluated on (no onmatch); v gets the count for this line's answer *)
+  | AssignQK (qs : Assign.quals) (nm : Z) (key : ustring) (e : nexp)   (* @nm.key.<qualifiers> = e: the same decision over the value held under that key, written under that key *)
   | AssignQ (qs : Assign.quals) (v : Z) (e : nexp).   (* @v.<qualifiers> = e (no onmatch): written and voted as Match/Assign.do_assignment decides *)
 Inductive action := AssignN (x : Z) (e : nexp) | AssignS (x : Z) (e : sexp) | PushN (k : Z) (e : nexp) | PushS (k : Z) (e : sexp) | Pop (x k : Z) | PushD (k : Z) (e : nexp)
   | Agg (g : agg).
@@ -334,6 +335,13 @@ Section Eval.
         | Some (true, vote) => (with_mx s (mkMx (update v y (vars m)) (stacks m) (dicts m)), vote)
         | Some (false, vote) => (s, vote)
         | None => (s, false)               (* an int compared with text: Python raises; not generated *)
+        end
+    | AssignQK qs nm key e =>
+        let y := nvalue s l e in
+        match Assign.do_assignment qs true (aval_of (match dget m nm key with Some c0 => c0 | None => VNone end)) (aval_of y) with
+        | Some (true, vote) => (with_mx s (dset m nm key y), vote)
+        | Some (false, vote) => (s, vote)
+        | None => (s, false)
         end
     | CountIf v nm c =>
         let key := if beval s l c then py_true else py_false in
